@@ -5,6 +5,8 @@
 
 use std::io::Read;
 
+use rand::SeedableRng;
+
 use pgp::armor::Dearmor;
 use pgp::composed::{Any, CleartextSignedMessage, DecryptionOptions, Deserializable, DetachedSignature, Message, PlainSessionKey, RawSessionKey, SignedPublicKey, SignedSecretKey, TheRing};
 use pgp::crypto::sym::SymmetricKeyAlgorithm;
@@ -888,6 +890,227 @@ fn hostile_params_case(t: &mut Tape, rec: &mut Rec) -> CaseResult {
     Ok(())
 }
 
+
+// ---------------------------------------------------------------------------------------------
+// (1d) key packets whose algorithm-specific fields are degenerate
+// ---------------------------------------------------------------------------------------------
+
+/// one MPI-like field: plausible, empty, zero-valued in several encodings, truncated, oversized
+fn hostile_mpi(t: &mut Tape, plausible: &[u8]) -> Vec<u8> {
+    match t.below(10) {
+        0 | 1 | 2 => wire::mpi(plausible),
+        3 => vec![0, 0],
+        4 => vec![0, 8, 0],
+        5 => {
+            // all-zero body of the plausible length: strips to nothing
+            let n = plausible.len().max(1);
+            let mut v = ((n * 8) as u16).to_be_bytes().to_vec();
+            v.extend_from_slice(&vec![0u8; n]);
+            v
+        }
+        6 => vec![0, 1, 1],
+        7 => {
+            // announces more bits than are supplied
+            let mut v = vec![0xff, 0xff];
+            v.extend_from_slice(&plausible[..plausible.len().min(5)]);
+            v
+        }
+        8 => {
+            let mut p = plausible.to_vec();
+            p.truncate(p.len() / 2);
+            wire::mpi(&p)
+        }
+        _ => {
+            let mut p = plausible.to_vec();
+            p.extend_from_slice(&expand(t.u64(), 40));
+            wire::mpi(&p)
+        }
+    }
+}
+
+fn hostile_oid(t: &mut Tape, oid: &[u8]) -> Vec<u8> {
+    match t.below(8) {
+        0 => vec![0],
+        1 => vec![0xff],
+        2 => {
+            let mut v = vec![oid.len() as u8 + 1];
+            v.extend_from_slice(oid);
+            v
+        }
+        _ => {
+            let mut v = vec![oid.len() as u8];
+            v.extend_from_slice(oid);
+            v
+        }
+    }
+}
+
+fn hostile_key_material_case(t: &mut Tape, rec: &mut Rec) -> CaseResult {
+    const OID_ED25519: &[u8] = &[0x2B, 0x06, 0x01, 0x04, 0x01, 0xDA, 0x47, 0x0F, 0x01];
+    const OID_CV25519: &[u8] = &[0x2B, 0x06, 0x01, 0x04, 0x01, 0x97, 0x55, 0x01, 0x05, 0x01];
+    const OID_P256: &[u8] = &[0x2A, 0x86, 0x48, 0xCE, 0x3D, 0x03, 0x01, 0x07];
+    const OID_P384: &[u8] = &[0x2B, 0x81, 0x04, 0x00, 0x22];
+    const OID_P521: &[u8] = &[0x2B, 0x81, 0x04, 0x00, 0x23];
+    const OID_K256: &[u8] = &[0x2B, 0x81, 0x04, 0x00, 0x0A];
+    let alg = *t.pick(&[1u8, 2, 3, 16, 17, 18, 19, 22, 25, 26, 27, 28]);
+    let version = *t.pick(&[4u8, 4, 6, 3]);
+    let r = |t: &mut Tape, n: usize| -> Vec<u8> {
+        let mut v = expand(t.u64(), n);
+        if !v.is_empty() {
+            v[0] |= 0x80;
+        }
+        v
+    };
+    let curve = match t.below(6) {
+        0 => (OID_ED25519, 33usize),
+        1 => (OID_CV25519, 33),
+        2 => (OID_P256, 65),
+        3 => (OID_P384, 97),
+        4 => (OID_P521, 133),
+        _ => (OID_K256, 65),
+    };
+    let point = |t: &mut Tape, n: usize| -> Vec<u8> {
+        let mut v = expand(t.u64(), n);
+        if !v.is_empty() {
+            v[0] = if n == 33 { 0x40 } else { 0x04 };
+        }
+        v
+    };
+    let mut public = vec![];
+    match alg {
+        1 | 2 | 3 => {
+            let nl = *t.pick(&[64usize, 128, 256]);
+            let n = r(t, nl);
+            public.extend_from_slice(&hostile_mpi(t, &n));
+            public.extend_from_slice(&hostile_mpi(t, &[1, 0, 1]));
+        }
+        16 => {
+            for len in [128usize, 1, 128] {
+                let v = r(t, len);
+                public.extend_from_slice(&hostile_mpi(t, &v));
+            }
+        }
+        17 => {
+            for len in [128usize, 32, 128, 128] {
+                let v = r(t, len);
+                public.extend_from_slice(&hostile_mpi(t, &v));
+            }
+        }
+        18 | 19 | 22 => {
+            // matching curve for the algorithm most of the time, any curve otherwise
+            let c = if t.chance(180) {
+                match alg {
+                    22 => (OID_ED25519, 33),
+                    18 => *t.pick(&[(OID_CV25519, 33usize), (OID_P256, 65), (OID_P384, 97), (OID_P521, 133)]),
+                    _ => *t.pick(&[(OID_P256, 65usize), (OID_P384, 97), (OID_P521, 133), (OID_K256, 65)]),
+                }
+            } else {
+                curve
+            };
+            public.extend_from_slice(&hostile_oid(t, c.0));
+            let p = point(t, c.1);
+            public.extend_from_slice(&hostile_mpi(t, &p));
+            if alg == 18 {
+                match t.below(6) {
+                    0 => public.extend_from_slice(&[0]),
+                    1 => public.extend_from_slice(&[3, 1, 8]),
+                    2 => public.extend_from_slice(&[0xff, 1, 8, 7]),
+                    3 => public.extend_from_slice(&[3, 0xff, t.u8(), t.u8()]),
+                    _ => public.extend_from_slice(&[3, 1, *t.pick(&[8u8, 9, 10, 2, 0]), *t.pick(&[7u8, 8, 9, 0, 2])]),
+                }
+            }
+        }
+        _ => {
+            let n = match alg {
+                25 | 27 => 32usize,
+                26 => 56,
+                _ => 57,
+            };
+            let n = *t.pick(&[n, n, n, 0, 1, n - 1, n + 1]);
+            public.extend_from_slice(&expand(t.u64(), n));
+        }
+    }
+    let secret_packet = t.chance(100);
+    let mut body = gen::public_key_body(version, 1_600_000_000, alg, &public);
+    if version == 6 && t.chance(40) {
+        // the v6 octet count of the public material: off by some
+        let l = public.len() as u32;
+        let wrong = match t.below(4) {
+            0 => 0,
+            1 => l.saturating_sub(1),
+            2 => l + 1,
+            _ => u32::MAX,
+        };
+        body[6..10].copy_from_slice(&wrong.to_be_bytes());
+    }
+    if secret_packet {
+        // unprotected secret material: degenerate as well, with a checksum that may or may not match
+        let mut sec = vec![];
+        for _ in 0..t.range(1, 4) {
+            let vl = *t.pick(&[32usize, 1, 64, 128]);
+            let v = r(t, vl);
+            sec.extend_from_slice(&hostile_mpi(t, &v));
+        }
+        body.push(0);
+        if version == 6 {
+            // (no checksum for v6)
+            body.extend_from_slice(&sec);
+        } else {
+            let sum: u16 = sec.iter().fold(0u16, |a, b| a.wrapping_add(*b as u16));
+            body.extend_from_slice(&sec);
+            body.extend_from_slice(&(if t.bool() { sum } else { sum.wrapping_add(1) }).to_be_bytes());
+        }
+    }
+    let tag = match (secret_packet, t.bool()) {
+        (false, true) => 6u8,
+        (false, false) => 14,
+        (true, true) => 5,
+        (true, false) => 7,
+    };
+    rec.label(format!("key-material:alg{alg}:v{version}"));
+    rec.nontrivial((tag, body.clone()));
+    rec.describe(|| format!("v{version} key packet (tag {tag}), algorithm {alg}, {} octets of degenerate material: {}", public.len(), hex::encode(&body[..body.len().min(80)])));
+    // alone, and as the (sub)key of a certificate made of real packets
+    let z = zoo::get(Kind::Ed25519V4);
+    let cert = z.public.to_bytes().unwrap_or_default();
+    let ps = wire::split_packets(&cert).unwrap_or_default();
+    let mut v = vec![];
+    if tag == 14 || tag == 7 {
+        for p in &ps {
+            v.extend_from_slice(&wire::new_packet(p.tag, &p.body));
+        }
+        v.extend_from_slice(&wire::new_packet(tag, &body));
+        if let Some(sig) = ps.iter().rev().find(|p| p.tag == 2) {
+            v.extend_from_slice(&wire::new_packet(2, &sig.body));
+        }
+    } else {
+        v.extend_from_slice(&wire::new_packet(tag, &body));
+        for p in ps.iter().skip(1) {
+            v.extend_from_slice(&wire::new_packet(p.tag, &p.body));
+        }
+    }
+    exercise_any(rec, &v, t);
+    // a message "encrypted to" / "signed by" such a key: the key is the verifier / the ring member
+    rec.checkpoint("degenerate-key:use");
+    if let Some(Ok(p)) = PacketParser::new(&wire::new_packet(tag, &body)[..]).next() {
+        use pgp::types::KeyDetails;
+        match &p {
+            Packet::PublicKey(k) => {
+                let _ = k.fingerprint();
+                let _ = k.legacy_key_id();
+                let _ = zoo::get(Kind::Ed25519V4).public.details.users.first().map(|u| u.signatures.first().map(|s| s.verify_certification(k, pgp::types::Tag::UserId, &u.id)));
+                let _ = pgp::packet::PublicKeyEncryptedSessionKey::from_session_key_v3(rand_chacha::ChaCha8Rng::from_seed([1; 32]), &RawSessionKey::from(&[7u8; 16][..]), SymmetricKeyAlgorithm::AES128, k);
+            }
+            Packet::PublicSubkey(k) => {
+                let _ = k.fingerprint();
+                let _ = pgp::packet::PublicKeyEncryptedSessionKey::from_session_key_v6(rand_chacha::ChaCha8Rng::from_seed([1; 32]), &RawSessionKey::from(&[7u8; 16][..]), k);
+            }
+            _ => {}
+        }
+    }
+    Ok(())
+}
+
 // ---------------------------------------------------------------------------------------------
 // (2) mutated fixtures
 // ---------------------------------------------------------------------------------------------
@@ -1012,7 +1235,7 @@ fn random_packets_case(t: &mut Tape, rec: &mut Rec) -> CaseResult {
 }
 
 pub fn run(ctx: &Ctx) {
-    ctx.set_rule("every case runs in a worker process on a 2 MiB stack; failure = panic (caught, signature = site), abort / stack overflow / failed allocation of the worker (signature = kind @ last checkpoint); generators: (1a) PKESK v3/v6 to RSA, ECDH cv25519/P-256, X25519, X448 recipients whose *decrypted* octets are attacker chosen - enumerated over length class x every first octet 0..255; (1b) SEIPDv1/SEIPDv2/GnuPG-OCB containers valid under a known session key around hostile inner streams (compressed nests to depth 4000, 10^4 markers, OPS without signature, bad partial lengths, thousands of prefixed signatures, truncations, indeterminate lengths, random packets) and SEIPDv2 header fields set to every value; (1c) SKESK v4/v5/v6, secret-key protection fields, S2K specifiers with arbitrary octets, signatures with nested embedded signatures to depth 20000 and odd subpacket areas, damaged locked certificates used for decryption; (2) mutated fixtures (keys, messages, signatures, cleartext, armor: flips, sets, truncations, splices, extreme length octets); (3) generated packet streams, binary and armored; entry points: PacketParser, Message from_bytes/from_string + decrypt_the_ring (3 option sets) + decompress + read + verify + drop, Signed{Public,Secret}Key from_bytes_many/from_string + verify_bindings + serialize + unlock, DetachedSignature, CleartextSignedMessage, Dearmor, Any, SymKeyEncryptedSessionKey::decrypt, DecryptionKey::decrypt, StringToKey::derive_key; non-trivial = artifact constructed; distinct = (generator class, parameters)");
+    ctx.set_rule("every case runs in a worker process on a 2 MiB stack; failure = panic (caught, signature = site), abort / stack overflow / failed allocation of the worker (signature = kind @ last checkpoint); generators: (1a) PKESK v3/v6 to RSA, ECDH cv25519/P-256, X25519, X448 recipients whose *decrypted* octets are attacker chosen - enumerated over length class x every first octet 0..255; (1b) SEIPDv1/SEIPDv2/GnuPG-OCB containers valid under a known session key around hostile inner streams (compressed nests to depth 4000, 10^4 markers, OPS without signature, bad partial lengths, thousands of prefixed signatures, truncations, indeterminate lengths, random packets) and SEIPDv2 header fields set to every value; (1c) SKESK v4/v5/v6, secret-key protection fields, S2K specifiers with arbitrary octets, signatures with nested embedded signatures to depth 20000 and odd subpacket areas, damaged locked certificates used for decryption; (1d) key packets (public, secret, subkey; v3/v4/v6; RSA, ElGamal, DSA, ECDH, ECDSA, EdDSA-legacy, X25519/X448, Ed25519/Ed448) whose MPIs, curve OIDs, KDF parameters, fixed-size fields and v6 octet count are degenerate (empty, zero-valued in several encodings, truncated, oversized, mismatching curve), alone and inside a certificate, then used as verifier and as encryption target; (2) mutated fixtures (keys, messages, signatures, cleartext, armor: flips, sets, truncations, splices, extreme length octets); (3) generated packet streams, binary and armored; entry points: PacketParser, Message from_bytes/from_string + decrypt_the_ring (3 option sets) + decompress + read + verify + drop, Signed{Public,Secret}Key from_bytes_many/from_string + verify_bindings + serialize + unlock, DetachedSignature, CleartextSignedMessage, Dearmor, Any, SymKeyEncryptedSessionKey::decrypt, DecryptionKey::decrypt, StringToKey::derive_key; non-trivial = artifact constructed; distinct = (generator class, parameters)");
     ctx.assume("a worker that makes no progress for 120 s is reported as inconclusive (exit 2), never as a violation");
     // rPGP documents an Argon2 ceiling of 2 GiB; a mutation can turn a small Argon2 setting of a fixture
     // into one inside that ceiling, which the worker's allocator (1 GiB per request) refuses
@@ -1037,6 +1260,8 @@ pub fn run(ctx: &Ctx) {
     ctx.group_isolated("truncated-partial-containers", Source::Indexed { count: total }, |t, rec| truncation_case(t, rec, &tb, &starts));
     let n = ctx.tier.pick(3000u64, 200_000);
     ctx.group_isolated("hostile-parameters", Source::Random { n, tape_len: 400 }, hostile_params_case);
+    let n = ctx.tier.pick(6000u64, 200_000);
+    ctx.group_isolated("degenerate-key-material", Source::Random { n, tape_len: 260 }, hostile_key_material_case);
     let fx = fixtures();
     let n = ctx.tier.pick(20_000u64, 600_000);
     ctx.group_isolated("mutated-fixtures", Source::Random { n, tape_len: 120 }, |t, rec| mutated_fixture_case(t, rec, &fx));
